@@ -14,6 +14,7 @@ import ASV.Proofs.Parser.FuelTop
 import ASV.Proofs.Parser.Reprint11
 import ASV.Proofs.Rulesets
 import ASV.Proofs.Parser.FilePP
+import ASV.Proofs.Continuations
 namespace ASV.C02
 open ASV ASV.Rules ASV.Parser ASV.Grammar ASV.Layout ASV.Reprint
 
@@ -253,6 +254,26 @@ example : shapeOr (.or (.one (.id false "a")) (.one (.and (.id false "b") (.one 
   simp [shapeOr, shapeAnd, shapeAtoms, shapeAtom]
 example : okTop (.or (.one (.id false "a")) (.one (.and (.id false "b") (.one (.id true "c"))))) = true := by
   decide +kernel
+
+/-! ### rules split over files: a parse continues from the *value* of the rules handed to it -/
+
+/-- `Parser(text, …, existing_rules=R)` works on its own copy: in any sequence of parses within one
+    process, each continuing from any earlier list, a list object never changes once it exists
+    (so the caller's `R` still holds what it held) -/
+theorem existing_rules_untouched (cfg : Cfg) (steps : List (Option Nat × String)) (st : Continuations.Store)
+    (i : Nat) (h : i < st.length) : (Continuations.run cfg steps st).2[i]? = st[i]? :=
+  Continuations.run_keeps cfg steps st i h
+
+/-- two continuations of one shared base, one after the other: each is judged against the files
+    actually given — the second yields exactly what its text yields after the base rules (same
+    rules, or rejected alike, e.g. for a superior only the first continuation defined), whatever
+    the first continuation defined or whether it failed; the base still holds the base rules -/
+theorem continuations_independent (cfg : Cfg) (st : Continuations.Store) (b : Nat) (base : List Rule)
+    (hb : st[b]? = some base) (x y : String) :
+    ∃ ox oy fin, Continuations.run cfg [(some b, x), (some b, y)] st = ([ox, oy], fin) ∧ fin[b]? = some base ∧
+      (Continuations.outcome fin oy).toOption = (parseText cfg base [] y).toOption.map (·.1) ∧
+      (Continuations.outcome fin ox).toOption = (parseText cfg base [] x).toOption.map (·.1) :=
+  Continuations.two_branches cfg st b base hb x y
 
 /-! ### DEFINE aliases behave as textual substitution (thm 4) -/
 
